@@ -20,7 +20,7 @@ CLAIMED = {
          "None-ness, dense value) over all 49 pairs x {+,-,*,@}, unary -, scalar *, gram and result trees, plus a numpy oracle on dense renderings.",
     note="Trusted: Coq kernel, hand-written model Model/QSMOps.v tied by correspondence, harness, JAX. qsm_mul exists in two Gallina forms (branch by "
          "branch like the Python, and a uniform form in which a missing part is a part of order 0); the theorems are about the uniform form, and both "
-         "forms are compared with the implementation on every case. Rounding is outside the theorems.",
+         "forms are compared with the implementation on every case. Rounding is outside the theorems. All expression trees: Theory/QSMExpr.v gives a syntax of expressions over the operations and proves by induction that a returned matrix is well formed and denotes the same expression on the dense matrices (expression_trees_sound), and that evaluation is total when every leaf carries a diagonal (expression_trees_total).",
     technique="Coq proof (block-triangular transition products, phi/psi scan invariants, Kronecker index map) + exact model/implementation correspondence over all kind pairs",
     ref="DESIGN.md section 6, C05"),
  "C06": dict(
@@ -77,7 +77,7 @@ CLAIMED = {
     text="Machine-checked theorems about the regenerated Transform/Linear/Cholesky/Subspace definitions with the base kernel universally quantified: value = base "
          "kernel at transformed coordinates for scalar/vector/matrix scales and factors, integer and sequence axes, nesting and algebra; Linear(1/ell) = length scale ell; "
          "scalar Cholesky = Linear with the inverse. Mahalanobis form, Linear(L^-1) equivalence, from_parameters layout and use inside GaussianProcess by numpy oracle.",
-    note="Trusted: as C09; solve_triangular is an oracle parameter. Matrix Mahalanobis identity and from_parameters layout not yet theorems.",
+    note="Trusted: as C09; solve_triangular is an oracle parameter. Matrix Mahalanobis identity and from_parameters layout not yet theorems. Cholesky.from_parameters: the layout of the two scatter-adds (tril_indices row by row, off_diagonal[r(r-1)/2+c] at (r,c)) is a theorem about Model/FromParams.v (from_parameters_layout), tied by exact correspondence for dimensions 1..7.",
     technique="Coq proof about source-regenerated definitions + numpy oracle",
     ref="DESIGN.md section 6, C19"),
  "C01": dict(
@@ -93,7 +93,7 @@ CLAIMED = {
     text="Machine-checked theorems (any field): fast-path mean y - N alpha = K alpha + m; every mean path of the model (training inputs, alternative kernel, new inputs; include_mean both ways); "
          "conditional covariance through a factor equals K** + N* - K*^T S^-1 K*; the quasiseparable dense fallback of the model returns exactly that (with the predictive noise). "
          "Model tied by tolerance correspondence over the option matrix {test set} x include_mean x predictive kernel x predictive noise x solver, predict() variants, numpy textbook oracle.",
-    note="Trusted: as C01. The structured branch of QuasisepSolver.condition (M + N* - gram(inv(L) @ M), quasiseparable arithmetic only) is a theorem (cond_cov_quasisep_qsm, composed from the C05/C06 theorems) and is exercised with every predictive-noise kind in every tier.",
+    note="Trusted: as C01. The structured branch of QuasisepSolver.condition (M + N* - gram(inv(L) @ M), quasiseparable arithmetic only) is a theorem (cond_cov_quasisep_qsm, composed from the C05/C06 theorems) and is exercised with every predictive-noise kind in every tier. On the dense path the factor and alpha2 are those computed by the model (cond_cov_direct, direct_alpha2); single precision is exercised with 64-bit types switched off.",
     technique="Coq proof (Gaussian conditional algebra on the pipeline model) + tolerance correspondence over the option matrix",
     ref="DESIGN.md section 6, C02"),
  "C03": dict(
@@ -114,7 +114,7 @@ CLAIMED = {
          "on both (Schur-complement elimination, block-free statement), the quadratic forms add and det S = det S11 det S22|1 (so total log probabilities agree), and the conditioned "
          "kernel k - K1^T K2 equals k - k(X,x)^T S^-1 k(X,x'). 2- and 3-step histories are run on the implementation (child evaluated, sampled, re-conditioned at own and new inputs; both solvers; "
          "include_mean both ways) against a dense numpy oracle and the implementation's own joint call; the child's kernel/mean objects are tied to their Gallina model by correspondence.",
-    note="Trusted: Coq kernel, harness, numpy oracle. Histories of arbitrary length follow by iterating the two-step theorem; that induction is not yet a Coq theorem (DESIGN.md).",
+    note="Trusted: Coq kernel, harness, numpy oracle. Histories of arbitrary length follow by iterating the two-step theorem; that induction is not yet a Coq theorem (DESIGN.md). The model's DirectSolver.condition (factor computed by the model) and the structured branch of QuasisepSolver.condition are proved to be `cond` steps (model_condition_is_cond, model_qsm_condition_is_cond).",
     technique="Coq proof (Schur complement algebra, block determinant) + history execution against oracle",
     ref="DESIGN.md section 6, C13"),
  "C16": dict(
